@@ -14,16 +14,17 @@ import (
 // state is reached by replaying its (shortest) op path on a fresh instance; Apply executes one op on the
 // implementation and on the reference model in lock-step and compares.
 type BFS[S any] struct {
-	Name  string                                   // configuration name (e.g. "size=6"), part of replay files
-	New   func() S                                 // fresh implementation + fresh reference model
-	Ops   []string                                 // static alphabet (labels)
-	Apply func(s S, op int) (bool, *Violation)     // (enabled, violation) — disabled ops must not touch s
-	Key   func(s S) string                         // canonical key; soundness argument in the check's header comment
-	Inv   func(s S) *Violation                     // state invariant, evaluated once per distinct state
-	Depth int                                      // 0 = run to fixpoint
-	Max   int                                      // cap on states (0 = 5e6)
-	Until time.Time                                // wall-clock cap (zero = none)
-	PanicSig func(op int, r any) string            // signature for a panic raised inside Apply (nil = "panic/<op>")
+	Name     string                               // configuration name (e.g. "size=6"), part of replay files
+	New      func() S                             // fresh implementation + fresh reference model
+	Ops      []string                             // static alphabet (labels)
+	Apply    func(s S, op int) (bool, *Violation) // (enabled, violation) — disabled ops must not touch s
+	Key      func(s S) string                     // canonical key; soundness argument in the check's header comment
+	Inv      func(s S) *Violation                 // state invariant, evaluated once per distinct state
+	Depth    int                                  // 0 = run to fixpoint
+	Max      int                                  // cap on states (0 = 5e6)
+	Until    time.Time                            // wall-clock cap (zero = none)
+	Free     func(s S)                            // optional: release resources of a state object
+	PanicSig func(op int, r any) string           // signature for a panic raised inside Apply (nil = "panic/<op>")
 }
 
 type BFSResult struct {
@@ -39,10 +40,10 @@ type bnode struct {
 }
 
 type succ struct {
-	key    string
-	parent int
-	op     int
-	viol   *Violation
+	key      string
+	parent   int
+	op       int
+	viol     *Violation
 	disabled bool
 }
 
@@ -73,6 +74,25 @@ func (b *BFS[S]) apply(s S, op int) (en bool, v *Violation) {
 	return b.Apply(s, op)
 }
 
+// inv evaluates the state invariant after op; an accessor that panics on the state the op left
+// behind is attributed to that op.
+func (b *BFS[S]) inv(s S, op int) (v *Violation) {
+	defer func() {
+		if r := recover(); r != nil {
+			sig := "panic-after/" + b.Ops[op]
+			if b.PanicSig != nil {
+				sig = b.PanicSig(op, r)
+			}
+			lines := strings.Split(string(debug.Stack()), "\n")
+			if len(lines) > 24 {
+				lines = lines[:24]
+			}
+			v = &Violation{Sig: sig, Msg: fmt.Sprintf("after %s an accessor panics: %v\n%s", b.Ops[op], r, strings.Join(lines, "\n"))}
+		}
+	}()
+	return b.Inv(s)
+}
+
 // rebuild replays a path on a fresh instance. A path that worked once must work again: anything
 // else means the harness does not own some nondeterminism.
 func (b *BFS[S]) rebuild(path []uint16) S {
@@ -97,6 +117,9 @@ func (b *BFS[S]) Run() BFSResult {
 	var res BFSResult
 	seen := map[string]struct{}{}
 	s0 := b.New()
+	if b.Free != nil {
+		defer b.Free(s0)
+	}
 	k0 := b.Key(s0)
 	seen[k0] = struct{}{}
 	res.States = 1
@@ -136,18 +159,22 @@ func (b *BFS[S]) Run() BFSResult {
 					for op := range b.Ops {
 						s := b.rebuild(n.path)
 						en, v := b.apply(s, op)
-						if !en {
+						switch {
+						case !en:
 							ss = append(ss, succ{parent: i, op: op, disabled: true})
-							continue
+						default:
+							if v == nil && b.Inv != nil {
+								v = b.inv(s, op)
+							}
+							if v != nil {
+								ss = append(ss, succ{parent: i, op: op, viol: v})
+							} else {
+								ss = append(ss, succ{key: b.Key(s), parent: i, op: op})
+							}
 						}
-						if v == nil && b.Inv != nil {
-							v = b.Inv(s)
+						if b.Free != nil {
+							b.Free(s)
 						}
-						if v != nil {
-							ss = append(ss, succ{parent: i, op: op, viol: v})
-							continue
-						}
-						ss = append(ss, succ{key: b.Key(s), parent: i, op: op})
 					}
 					out[i] = ss
 				}
@@ -206,6 +233,9 @@ func (b *BFS[S]) Run() BFSResult {
 // Replay executes a stored label path verbosely; it returns the violation found, if any.
 func (b *BFS[S]) Replay(path []string, log func(string)) *Violation {
 	s := b.New()
+	if b.Free != nil {
+		defer b.Free(s)
+	}
 	for i, l := range path {
 		op := -1
 		for j, o := range b.Ops {
@@ -219,7 +249,7 @@ func (b *BFS[S]) Replay(path []string, log func(string)) *Violation {
 		en, v := b.apply(s, op)
 		log(fmt.Sprintf("step %d %s enabled=%v key=%s", i, l, en, safeKey(b, s, v)))
 		if v == nil && en && b.Inv != nil {
-			v = b.Inv(s)
+			v = b.inv(s, op)
 		}
 		if v != nil {
 			return v
